@@ -20,6 +20,8 @@ Verdict(c) ==
     [] c.fn = "fusion"  -> FusionVerdict(c)
     [] c.fn = "optimize" -> OptimizeVerdict(c)
     [] c.fn = "rechunk_spec" -> RechunkSpecVerdict(c)
+    [] c.fn = "unknown" -> UnknownVerdict(c)
+    [] c.fn = "entry" -> EntryVerdict(c)
     [] c.fn = "block_info" -> (IF BlockInfoVerdict(c) # "ok" THEN BlockInfoVerdict(c)
                                ELSE IF c.got.kind = "raised" THEN "ok-computation-raised"
                                ELSE IF ~SameValue(c.got, c.expect) THEN "map-blocks-value-differs" ELSE "ok")
